@@ -10,7 +10,9 @@ PROPS = {
                 technique="runtime order/permutation oracle on entity.SortEntities and Builder.Complete outputs; exhaustive small core",
                 text="All 66 430 lists of up to 5 entities with offset, length in {0,1,2} (enumerated completely), random lists of up to 40 entities (forced ties, wide ranges, shuffled nested families) "
                      "and the Complete outputs of the C35 program generator: adjacent pairs ascend by offset and, at equal offset, do not ascend by length; output is the same multiset of entities.",
-                note="Only the offset/length order is demanded; order among identical ranges is free. Lists beyond the exhaustive core are sampled.",
+                note="Only the offset/length order is demanded; order among identical ranges is free. Lists beyond the exhaustive core are sampled. "
+                     "Signature refinement: a disordered output identical, element for element, to sort.Sort with the shipped comparator (off< || len>) on the same input "
+                     "(for Complete: on the pre-sort list reconstructed via Raw + the trim step) is labelled matches-known-non-order-comparator; every other disorder keeps a specific signature.",
                 watchdog={"quick": 600, "thorough": 3600}),
     "C37": dict(engine="entmon", level="exploration", design="C37",
                 technique="crash observation (in-process panic capture + child-process batches for process-fatal inputs) and entity-bound oracle on html.HTML / markdown.Markdown results",
